@@ -6,3 +6,5 @@
 mod c27;
 #[cfg(kani)]
 mod c35;
+#[cfg(kani)]
+mod c34;
